@@ -151,7 +151,9 @@ def run(ctx):
     mism = []
     idx = [i for i, o in enumerate(obs) if o.get("ok")]
     capped = "arnoldi_padding" not in present      # model variant: arnoldi_batch_capped when the flag is gone
-    terms = [L.coq_case(cases[i], obs[i], capped) for i in idx]
+    rfix = "arnoldi_reltol_first_step" not in present   # model variant: repaired stopping test
+    cfix = "arnoldi_clip_garbage" not in present        # model variant: repaired normalisation
+    terms = [L.coq_case(cases[i], obs[i], capped, rfix, cfix) for i in idx]
     codes, err, maxdiff = eval_cases("c15", terms)
     if err:
         mism.append(dict(oracle_fail=False, harness_error=err))
@@ -175,7 +177,7 @@ def run(ctx):
             if bad:
                 mism.append(dict(oracle_fail=True, case=c, got={k: o.get(k) for k in ("ok", "err", "shapes", "H")}, failed_clauses=bad))
             if o.get("ok"):
-                for b, t in enumerate(L.coq_elem_cases(c, o, capped)):
+                for b, t in enumerate(L.coq_elem_cases(c, o, capped, rfix, cfix)):
                     eterms.append(t); owner.append((ci, b))
         ecodes, eerr, _ = eval_cases("c15_elem", eterms)
         elem_compared = len(eterms)
@@ -211,7 +213,7 @@ def run(ctx):
         samples=[dict(kind=c["kind"], n=c["n"], cplx=c["cplx"], start=c["start"], batch=c["batch"], max_iters=c["max_iters"], tol=c["tol"], entry=c["entry"],
                       v=c["v"], parts=c["parts"]) for c in cases[:2]],
         mismatches=mism, findings=fnd,
-        extra=dict(compared_in_coq=len(idx), model_variant=("arnoldi_batch_capped" if capped else "arnoldi_batch"), max_model_impl_difference=maxdiff, tolerance=1e-9, near_tie=hist.get(1, 0),
+        extra=dict(compared_in_coq=len(idx), model_variant=("arnoldi_batch_capped" if capped else "arnoldi_batch") + f" rfix={rfix} cfix={cfix}", max_model_impl_difference=maxdiff, tolerance=1e-9, near_tie=hist.get(1, 0),
                    noise_amplified_skipped=hist.get(2, 0), agree=hist.get(0, 0),
                    kind_histogram=kh, start_histogram=sh, max_iters_vs_n=mh,
                    breakdown_cases=sum(1 for c in cases if min(c["grades"]) < min(c["max_iters"], c["n"])),
@@ -240,7 +242,7 @@ def replay(ctx, payload):
         bad = L.oracle(c, o, present)
         cd = None
         if o.get("ok") and c["n"] <= 40:
-            codes, err, _ = eval_cases("c15_replay", [L.coq_case(c, o, "arnoldi_padding" not in present)])
+            codes, err, _ = eval_cases("c15_replay", [L.coq_case(c, o, "arnoldi_padding" not in present, "arnoldi_reltol_first_step" not in present, "arnoldi_clip_garbage" not in present)])
             cd = err or (codes or {}).get(0, 0)
         print(f"replay C15: oracle failed clauses={bad} model comparison code={cd}")
         if bad or (isinstance(cd, int) and cd >= 3) or isinstance(cd, str):
